@@ -8,6 +8,6 @@ CONSTANTS
   WSet = {"i8", "i16", "i32", "u32", "i64"}
   ThrSet = {}
   PosSet = {0, 1, 5}
-  Depth = 16
+  Depth = 15
 INVARIANTS Emit
 CHECK_DEADLOCK FALSE
